@@ -636,6 +636,74 @@ std::string tree_describe(Ints const &c)
   }
   return r;
 }
+// ------------------------------------------------------------------ sort on a node with MANY children
+// The histories above rarely give a node more than a handful of children. Here one root gets
+// 0..48 children with keys from a small set (many equal keys), each child carries a grandchild with
+// a unique tag, and sort() / sort(predicate) is compared with std::stable_sort on the model - the
+// children are kept in a std::list, whose sort is stable, and the history section demands the same
+// (equal keys keep their relative order, sub-trees travel with their node). Parent links must
+// survive. Sizes beyond 16 matter: std::sort-like implementations switch algorithm there.
+void sort_many_case(Ints const &c)
+{
+  Choices ch(c);
+  std::size_t const n = static_cast<std::size_t>(ch.range(0, 48));
+  bool const with_pred = ch.flag();
+  int const nkeys = static_cast<int>(ch.range(1, 4));
+  ch.skip_to_frame();
+  tree root(1000);
+  std::vector<std::pair<int, int>> model; // (key, unique tag)
+  for (std::size_t i = 0; i < n; ++i)
+  {
+    int const key = static_cast<int>(ch.range(0, nkeys - 1));
+    tree child(key);
+    child.push_back(tree(static_cast<int>(2000 + i)));
+    root.push_back(std::move(child));
+    model.emplace_back(key, static_cast<int>(2000 + i));
+  }
+  bool dup = false;
+  for (std::size_t i = 0; i < model.size(); ++i)
+    for (std::size_t j = i + 1; j < model.size(); ++j) dup = dup || model[i].first == model[j].first;
+  count(n >= 17 && dup);
+  if (with_pred)
+  {
+    root.sort([](int const a, int const b) { return a > b; });
+    std::stable_sort(model.begin(), model.end(), [](auto const &a, auto const &b) { return a.first > b.first; });
+  }
+  else
+  {
+    root.sort();
+    std::stable_sort(model.begin(), model.end(), [](auto const &a, auto const &b) { return a.first < b.first; });
+  }
+  std::vector<std::pair<int, int>> got;
+  bool links = true;
+  for (tree const &ch_ : root)
+  {
+    int tag = -1;
+    if (!ch_.empty()) tag = ch_.front().get_unsafe().get().value();
+    got.emplace_back(ch_.value(), tag);
+    links = links && ch_.parent().has_value() && &ch_.parent().get_unsafe().get() == &root;
+    for (tree const &g : ch_) links = links && g.parent().has_value() && &g.parent().get_unsafe().get() == &ch_;
+  }
+  std::string const what = std::string(with_pred ? "sort(greater)" : "sort()") + " of " + std::to_string(n) + " children over " + std::to_string(nkeys) + " keys";
+  if (got.size() != model.size()) fail("tree|sort-many|lost-or-duplicated", what + ": " + std::to_string(got.size()) + " children afterwards");
+  else if (got != model)
+  {
+    bool sorted_ok = true;
+    for (std::size_t i = 1; i < got.size(); ++i) sorted_ok = sorted_ok && (with_pred ? !(got[i - 1].first < got[i].first) : !(got[i].first < got[i - 1].first));
+    fail(sorted_ok ? "tree|sort-many|not-stable" : "tree|sort-many|not-sorted", what + ": child order differs from the stable sort of the model");
+  }
+  if (!links) fail("tree|sort-many|child-wrong-parent", what + ": a parent link is wrong after the sort");
+}
+Reg const r_sort_many{"sort_many_children", Kind::random, "at least 17 children and two of them with equal keys",
+                      [] { run_random(*g_cur.sec, {1500, 60}, {20000, 60}); }, sort_many_case,
+                      [](Ints const &c) {
+                        Choices ch(c);
+                        std::size_t const n = static_cast<std::size_t>(ch.range(0, 48));
+                        bool const with_pred = ch.flag();
+                        int const nkeys = static_cast<int>(ch.range(1, 4));
+                        return std::string(with_pred ? "sort(greater)" : "sort()") + " on a root with " + std::to_string(n) + " children over " + std::to_string(nkeys) + " distinct keys, each child with a uniquely tagged grandchild";
+                      }};
+
 Reg const r_tree{"tree_histories", Kind::random,
                  "history contains a swap / assignment / release / move involving a node at depth >= 1 that has children, followed by a traversal or the final destruction",
                  [] { run_random(*g_cur.sec, {20000, 26}, {40000, 42}); }, tree_case, tree_describe};
